@@ -538,7 +538,7 @@ def one_entry(chk, inst, entry, rk, cname, memeff, cholsz, sk, cell, payload, se
         try:
             gi = torch.autograd.grad((out_i * w).sum(), in_i, allow_unused=True) if in_i else []
         except Exception as e:
-            if lanczos and "nan" in str(e).lower():  # Lanczos breakdown (spurious zero Ritz value -> NaN inverse root): C09's concern
+            if lanczos and ("nan" in str(e).lower() or "ambiguous" in str(e)):  # (Toeplitz: NaN != NaN trips the c[0] == r[0] guard)  # Lanczos breakdown (spurious zero Ritz value -> NaN inverse root): C09's concern
                 chk.count("skipped:lanczos-breakdown")
                 return
             raise
